@@ -436,6 +436,7 @@ def check_path_scheme(ck):
           "listings skip the version directories" if skip_ok == len(ls.fi.nested) and skip_ok > 0 else
           "a listing walks into %r: version objects appear as keys" % vlit, ls.where())
     check_escape_inverse(ck, R)
+    check_strip_is_not_prefix_removal(ck, R)
 
 
 def check_escape_inverse(ck, R):
@@ -463,6 +464,26 @@ def check_escape_inverse(ck, R):
     ck.ob(R, ek.key(None, "escape"), ok_inv, "':' is escaped as a percent code that the listing decodes with unquote (the exact inverse)" if ok_inv else
           "key escaping %s is not inverted exactly by the listing (decoders used: %s): names containing '+' (versions like 1.4.0+build.7) come back altered"
           % (esc, sorted(decoders) or "none"), ek.where())
+
+
+def check_strip_is_not_prefix_removal(ck, R):
+    """`s.lstrip(X)` / `rstrip` / `strip` remove a *set of characters*, not a prefix: `'m/metrics:f'.lstrip('m/')`
+    is 'etrics:f'.  In the modules that build and take apart storage keys and qualified names a strip call
+    whose argument is anything but a single literal character is a prefix/suffix removal done wrong."""
+    mods = ("storage_base", "storage_filesystem", "storage_memory", "reference", "serialization", "metadata", "memento")
+    n = 0
+    for mn in mods:
+        for fi in ck.repo.module(mn).all_funcs():
+            for c in A.body_calls(fi.node):
+                if A.call_attr(c) in ("lstrip", "rstrip", "strip") and c.args:
+                    n += 1
+                    lit = A.const_str(c.args[0])
+                    ok = lit is not None and len(lit) == 1
+                    ck.ob(R, "%s::%s::strip-charset" % (fi.qual, A.head(c, 60)), ok,
+                          "strips one literal character" if ok else
+                          "`%s` removes every leading/trailing character that occurs in its argument, not the prefix/suffix itself: a name that "
+                          "starts with one of those characters (module 'metrics' after prefix 'm/') comes back truncated" % A.short(c, 60), A.loc(fi, c))
+    ck.ob(R, "strip-charset::scan", True, "%d strip-family calls with an argument in %s" % (n, list(mods)), "")
 
 
 def check_listing_filters(ck, R):
@@ -512,10 +533,10 @@ def check_override_writes(ck, R):
 
 def check(ck):
     cm = CacheModel(ck)
-    check_override_writes(ck, "C05.R6")
-    check_listing_filters(ck, "C05.R5")
-    check_keying(ck, "C05.R1")
-    check_forget_scope(ck, cm)
-    check_queries_effect_free(ck, "C05.R3")
-    check_cache_coherence(ck, cm)
-    check_path_scheme(ck)
+    ck.run(check_override_writes, ck, "C05.R6")
+    ck.run(check_listing_filters, ck, "C05.R5")
+    ck.run(check_keying, ck, "C05.R1")
+    ck.run(check_forget_scope, ck, cm)
+    ck.run(check_queries_effect_free, ck, "C05.R3")
+    ck.run(check_cache_coherence, ck, cm)
+    ck.run(check_path_scheme, ck)
